@@ -269,13 +269,14 @@ class Connection(object):
             finally:
                 self._sendlock.release()
 
-    def _box(self, obj):  # boxing
+    def _box(self, obj, _added=None):  # boxing
         """store a local object in such a way that it could be recreated on
-        the remote party either by-value or by-reference"""
+        the remote party either by-value or by-reference.  ``_added`` (a list) collects the keys this
+        boxing registered, so that they can be taken back if the message is never sent"""
         if brine.dumpable(obj):
             return consts.LABEL_VALUE, obj
         if type(obj) is tuple:
-            return consts.LABEL_TUPLE, tuple(self._box(item) for item in obj)
+            return consts.LABEL_TUPLE, tuple(self._box(item, _added) for item in obj)
         elif isinstance(obj, netref.BaseNetref) and obj.____conn__ is self:
             return consts.LABEL_LOCAL_REF, obj.____id_pack__
         else:
@@ -284,7 +285,18 @@ class Connection(object):
                 raise EOFError("connection closed")
             id_pack = get_id_pack(obj)
             self._local_objects.add(id_pack, obj)
+            if _added is not None:
+                _added.append(id_pack)
             return consts.LABEL_REMOTE_REF, id_pack
+
+    def _unregister(self, added):  # boxing
+        """take back what a boxing registered for a message that was never sent: no proxy will ever
+        exist for it, so no release notice would ever come"""
+        for id_pack in added:
+            try:
+                self._local_objects.decref(id_pack)
+            except KeyError:  # cleared meanwhile (the connection was closed)
+                pass
 
     def _resolve_local_refs(self, package):  # boxing
         """replace every LOCAL_REF of a package by the object itself.  Done before any proxy is created: creating
@@ -358,11 +370,14 @@ class Connection(object):
                 raise
             self._send_exception(seq, t, v, tb)
         else:
+            added = []
             try:
-                self._send(consts.MSG_REPLY, seq, self._box(res))
+                self._send(consts.MSG_REPLY, seq, self._box(res, added))
             except EOFError:
+                self._unregister(added)
                 raise
             except Exception:
+                self._unregister(added)
                 # the result cannot be boxed or serialized (nothing has been sent yet): answer
                 # with that exception, so the requester is not left waiting
                 t, v, tb = sys.exc_info()
@@ -525,9 +540,11 @@ class Connection(object):
     def _async_request(self, handler, args=(), callback=(lambda a, b: None)):  # serving
         seq = self._get_seq_id()
         self._request_callbacks[seq] = callback
+        added = []
         try:
-            self._send(consts.MSG_REQUEST, seq, (handler, self._box(args)))
+            self._send(consts.MSG_REQUEST, seq, (handler, self._box(args, added)))
         except Exception:
+            self._unregister(added)
             # TODO: review test_remote_exception, logging exceptions show attempt to write on closed stream
             # depending on the case, the MSG_REQUEST may or may not have been sent completely
             # so, pop the callback and raise to keep response integrity is consistent
